@@ -261,11 +261,41 @@ package cputensor
 
 /* ---------------- shape_modifiers.go ---------------- */
 
+// an element read at an index mixed from a path prefix P and the coordinates 0..n-1 of J only depends on J
+//@ lemma elMix: forallT(t, forallJ(P, forallJ(J, forallI(n, imp(rank(t) <= n, el(t, mix(P, J, 0, n)) == el(t, J))))))
+//@ lemma elSwapMix: forallT(t, forallJ(P, forallJ(J, forallI(n, imp(rank(t) == n && n >= 2, el(t, swap2(mix(P, J, 0, n), n)) == el(t, swap2(J, n)))))))
 //@ func CPUTensor.transpose
-//@   requires rank(t) >= 2
-//@   assumed L2 element generator (odometer with swapped carry order) + initWith.fill; bounded stand-in: rac TestShapeOps
+//@   requires published(t) && rank(t) >= 2
+//@   uses dimsLink, filledWF, filledEl, wfExt
+//@   have genFloat(elemGen) && rank(o) == rank(t)
+//@   have forallJ(J, imp(inb(o, J), el(o, J) == fval(genAt(elemGen, mix(zeroIdx(), J, 0, rank(t))))))
+//@   have forallJ(J, imp(inb(o, J), el(o, J) == el(t, swap2(J, rank(t))))) @uses elSwapMix
 //@   returns fresh
 //@   ensures o != nil && trShape(o, t) && forallJ(J, imp(inb(o, J), el(o, J) == el(t, swap2(J, rank(t)))))
+
+// swapPos(k, n): the position k with n-2 and n-1 exchanged. The transpose generator enumerates the result in row-major
+// order; its state is the source index, i.e. the result index with the last two positions exchanged, so its carry runs
+// through the source positions n-2, n-1, n-3, n-4, ..., 0 (result positions n-1, n-2, ..., 0).
+//@ define swapPos(k, n) := ite(k == n-2, n-1, ite(k == n-1, n-2, k))
+//@ func CPUTensor.transposeElemGenerator
+//@   requires published(t) && rank(t) >= 2
+//@   uses dimsLink
+//@   returns fresh
+//@   modifies genIdx(res)
+//@   ensures res != nil && genRank(res) == rank(t) && genIdx(res) == zeroIdx()
+//@   ensures forall(k, 0, rank(t), genShape(res)[k] == dim(t, swapPos(k, rank(t))))
+//@   ensures forallJ(Q, genAt(res, Q) == mkF(el(t, swap2(Q, rank(t)))))
+//@ func CPUTensor.transposeElemGenerator#0
+//@   implements cputensor.initializerFunc
+//@   uses dimsLink
+//@   modifies state
+//@   yields genRank(self) == rank(t) && forall(k, 0, rank(t), genShape(self)[k] == dim(t, swapPos(k, rank(t)))) && forallJ(Q, genAt(self, Q) == mkF(el(t, swap2(Q, rank(t)))))
+//@   invariant t != nil && published(t) && rank(t) >= 2
+//@   invariant len(state) == rank(t) && imp(genIdx(self)[0-1] == 0, forall(k, 0, rank(t), state[k] == genIdx(self)[swapPos(k, rank(t))]))
+//@   loop 0 invariant 0-1 <= i && i < rank(t) && len(state) == rank(t)
+//@   loop 0 invariant forall(k, 0, rank(t), imp(swapPos(k, rank(t)) > swapPos(i, rank(t)), old(state[k]) == dim(t, k) - 1 && state[k] == 0))
+//@   loop 0 invariant forall(k, 0, rank(t), imp(swapPos(k, rank(t)) <= swapPos(i, rank(t)), state[k] == old(state[k])))
+//@   loop 0 decreases swapPos(i, rank(t)) + 1
 
 //@ func CPUTensor.reshape
 //@   requires forall(k, 0, len(shape), shape[k] > 0) && prod(shape, 0, len(shape)) == nelems(t)
@@ -273,11 +303,42 @@ package cputensor
 //@   returns fresh
 //@   ensures o != nil && hasShape(o, shape) && nelems(o) == nelems(t) && forall(p, 0, nelems(t), flat(o, p) == flat(t, p))
 
+//@ lemma elProjMix: forallT(t, forallJ(S, forallI(m, forallJ(P, forallJ(J, imp(rank(t) <= m, el(t, projA(t, S, m, mix(P, J, 0, m))) == el(t, projA(t, S, m, J))))))))
+//@ lemma elProjA: forallT(t, forallT(o, forallJ(S, forallI(m, forallJ(J, imp(rank(t) <= m && hasShapeA(o, S, m), el(t, projA(t, S, m, J)) == el(t, proj(t, o, J))))))))
 //@ func CPUTensor.broadcast
-//@   requires bcastOK(t, shape)
-//@   assumed L2 broadcast element generator (three-way carry loop) + initWith.fill; bounded stand-in: rac TestShapeOps
+//@   requires published(t) && bcastOK(t, shape)
+//@   uses dimsLink, filledWF, filledEl, wfExt
+//@   have genFloat(elemGen) && hasShape(o, shape)
+//@   have forallJ(J, imp(inb(o, J), el(o, J) == fval(genAt(elemGen, mix(zeroIdx(), J, 0, len(shape))))))
+//@   have forallJ(J, imp(inb(o, J), el(o, J) == el(t, projA(t, idx(shape), len(shape), J)))) @uses elProjMix
+//@   have forallJ(J, imp(inb(o, J), el(o, J) == el(t, proj(t, o, J)))) @uses elProjA
 //@   returns fresh
 //@   ensures o != nil && hasShape(o, shape) && forallJ(J, imp(inb(o, J), el(o, J) == el(t, proj(t, o, J))))
+
+// The broadcast generator enumerates the target shape in row-major order. Target position j faces source position
+// j - (m - n) (m = len(shape), n = rank(t)). Where the source size equals the target size the source digit state[i] is the
+// target digit and repeat[j] stays 0; where the source size is 1 (or there is no source position) repeat[j] is the
+// target digit and state[i] stays 0. So state is proj of the target index.
+//@ define bcI(j) := j - (len(shape) - rank(t))
+//@ define bcDigit(j, G) := ite(bcI(j) >= 0 && dim(t, bcI(j)) == shape[j], state[bcI(j)] == G[j] && repeat[j] == 0, repeat[j] == G[j] && imp(bcI(j) >= 0, state[bcI(j)] == 0))
+//@ func CPUTensor.broadcastElemGenerator
+//@   requires published(t) && bcastOK(t, shape)
+//@   uses dimsLink
+//@   returns fresh
+//@   modifies genIdx(res)
+//@   ensures res != nil && genRank(res) == len(shape) && sameOn(genShape(res), idx(shape), 0, len(shape)) && genIdx(res) == zeroIdx()
+//@   ensures forallJ(Q, genAt(res, Q) == mkF(el(t, projA(t, idx(shape), len(shape), Q))))
+//@ func CPUTensor.broadcastElemGenerator#0
+//@   implements cputensor.initializerFunc
+//@   uses dimsLink
+//@   modifies state, repeat
+//@   yields genRank(self) == len(shape) && sameOn(genShape(self), idx(shape), 0, len(shape)) && forallJ(Q, genAt(self, Q) == mkF(el(t, projA(t, idx(shape), len(shape), Q))))
+//@   invariant t != nil && published(t) && bcastOK(t, shape) && len(state) == rank(t) && len(repeat) == len(shape)
+//@   invariant imp(genIdx(self)[0-1] == 0, forall(jj, 0, len(shape), bcDigit(jj, genIdx(self))))
+//@   loop 0 invariant 0-1 <= j && j < len(shape) && len(state) == rank(t) && len(repeat) == len(shape) && i == ite(bcI(j) >= 0, bcI(j), 0-1)
+//@   loop 0 invariant forall(jj, 0, len(shape), imp(jj > j, genIdx(self)[jj] == shape[jj] - 1 && repeat[jj] == 0 && imp(bcI(jj) >= 0, state[bcI(jj)] == 0)))
+//@   loop 0 invariant forall(jj, 0, len(shape), imp(jj <= j, repeat[jj] == old(repeat[jj]) && imp(bcI(jj) >= 0, state[bcI(jj)] == old(state[bcI(jj)]))))
+//@   loop 0 decreases j + 1
 
 //@ func CPUTensor.unSqueeze
 //@   uses dimsLink
